@@ -204,9 +204,10 @@ impl Expr {
         match self {
             Self::Number(n) => Ok(*n),
             Self::Variable(name) => {
+                // A variable that is only assigned inside a while body may still be unassigned here
                 let value = ctx
                     .get(name)
-                    .expect("Variable not found. This should have been found at parse time");
+                    .ok_or_else(|| ExprErrorKind::UnassignedVariable(name.clone()))?;
                 if let crate::OutputValue::Value(n) = value {
                     Ok(n)
                 } else {
